@@ -13,7 +13,7 @@ LEVEL = "exploration"
 ENGINE = "R"
 TECHNIQUE = "differential: one generated runcard solved under varied worker counts, target orders and target subsets; bitwise comparison"
 RULE = (
-    "Generated base tiny runcard with 1-3 targets (LO/NLO/NNLO, fixed and threshold-crossing paths, 2-4 point grids). "
+    "Generated base tiny runcard with 1-3 targets (LO/NLO/NNLO, fixed and threshold-crossing paths, 2-4 point grids, scale variation none / expanded / exponentiated with xif in {0.5, 2}, in half of the cases one target exactly on a matching scale with the lower nf and one beyond it, each also solved alone). "
     "Variants of the same card: n_integration_cores in {1, 2, 3, -13, -14} (16 CPUs -> 3 and 2 workers), every "
     "permutation of the target list, every non-empty subset of the targets (a drawn selection of up to 5 (quick) / 9 (thorough) variants per "
     "base, always containing >=2 different worker counts). For every target, operator and error arrays must be "
@@ -47,15 +47,39 @@ def strategy(tier):
     def build(draw):
         base = draw(
             ru.st_tiny_card(orders=(1, 1, 2, 3), methods=("iterate-exact", "truncated", "perturbative-exact"),
-                            n_extra_targets=(1, 3), grid_pts=(2, 4), iters=(1, 2), weird_nf=0.3)
+                            n_extra_targets=(1, 3), grid_pts=(2, 4), iters=(1, 2), weird_nf=0.3,
+                            sv=(None, None, "expanded", "exponentiated"))
         )
+        if base["sv"] is not None and base["xif"] == 1.0:
+            base["xif"] = draw(st.sampled_from((0.5, 2.0)))
+        # half of the cases: one target sits exactly on a matching scale with the lower nf and another one lies beyond
+        # that wall, so that the same segment is the final part of one target and an intermediate part of the other;
+        # the on-wall target is then also solved alone
+        wall_case = draw(st.integers(0, 1)) == 0
+        if wall_case:
+            import math
+
+            q = draw(st.integers(0, 1))
+            w2 = (base["ratios"][q] ** 2) * (base["masses"][q] ** 2)
+            w = math.sqrt(w2)
+            for cand in (w, float(np.nextafter(w, 0.0)), float(np.nextafter(w, 1e9))):
+                if cand * cand == w2:
+                    w = cand
+            base["init"] = [float(w / draw(st.floats(1.4, 2.0))), 3 + q]
+            on_wall = [float(w), 3 + q + (0 if draw(st.integers(0, 2)) else 1)]
+            beyond = [float(w * draw(st.floats(1.3, 2.0))), 4 + q]
+            base["mugrid"] = [on_wall, beyond] if draw(st.booleans()) else [beyond, on_wall]
+            if draw(st.integers(0, 2)) > 0:
+                base["sv"], base["xif"] = "expanded", draw(st.sampled_from((0.5, 2.0)))
+                on_wall[1] = 3 + q
+            base["ref"] = [base["init"][0] * min(base["xif"], 1.0), 3 + q]
         if base["order"][0] >= 2:
             base["xgrid"] = base["xgrid"][-2:] if tier == "quick" else base["xgrid"][-3:]
             base["deg"] = min(base["deg"], len(base["xgrid"]) - 1)
         if any(n < base["init"][1] for _, n in base["mugrid"]) and base["inv"] is None:
             base["inv"] = "expanded"
         walls = ru.walls_of(base)
-        lowest = min([base["init"][0], base["ref"][0]] + [m for m, _ in base["mugrid"]] + walls[:2])
+        lowest = min([base["init"][0], base["ref"][0]] + [m for m, _ in base["mugrid"]] + walls[:2]) * min(base["xif"], 1.0)
         base["alphas"] = float(ru.lo_alpha(draw(st.floats(0.1, 0.3)), lowest, base["ref"][0]))
         nt = len(base["mugrid"])
         idx = list(range(nt))
@@ -69,6 +93,11 @@ def strategy(tier):
         if not any(v["cores"] != 1 for v in sel):
             sel[0] = {"cores": 2, "targets": idx}
         variants = [{"cores": 1, "targets": idx}] + list(sel)
+        if wall_case:
+            for i in (0, 1):
+                alone = {"cores": 1, "targets": [i]}
+                if alone not in variants:
+                    variants.append(alone)
         return {"base": base, "variants": variants}
 
     return build()
@@ -83,7 +112,7 @@ def check_case(case):
     base = case["base"]
     c = ru.full(base)
     n = len(c["xgrid"])
-    res.classes = [f"order={c['order'][0]}", f"targets={len(c['mugrid'])}", f"variants={len(case['variants'])}"]
+    res.classes = [f"order={c['order'][0]}", f"targets={len(c['mugrid'])}", f"variants={len(case['variants'])}", f"sv={c['sv']}"]
     outs = []
     for v in case["variants"]:
         card = copy.deepcopy(base)
